@@ -37,8 +37,6 @@ import (
 	"pgregory.net/rapid"
 )
 
-const fpShortRead = "C46:restore-short-read"
-
 func fatalEnv(format string, a ...any) { ev.Inconclusive("C46 harness: "+format, a...) }
 
 // ---------- objects ----------
@@ -55,13 +53,49 @@ func payload(seed, n int) []byte {
 	return b[:n]
 }
 
-func build(s uni.Spec) *object.Object {
-	o := uni.Build(s)
+// Spec describes one object of a case. Every object has its own object ID
+// (FSTree combined files index their members by object ID only, so an ID is
+// never reused across containers within a case).
+type Spec struct {
+	K      int    `json:"k"`   // object ID index 0..maxObjs-1
+	Cnr    int    `json:"cnr"` // uni container index
+	Kind   string `json:"kind"`
+	Target int    `json:"target,omitempty"` // K of the associated object (tombstone / lock)
+	Len    int    `json:"len,omitempty"`
+}
+
+func (s Spec) String() string {
 	if s.Kind == uni.Regular {
-		p := payload(s.Cnr*100+s.ID, s.PayloadLen)
-		o.SetPayload(p)
-		o.SetPayloadSize(uint64(len(p)))
-		o.SetPayloadChecksum(checksum.NewSHA256(sha256.Sum256(p)))
+		return fmt.Sprintf("regular c%d/k%d len=%d", s.Cnr, s.K, s.Len)
+	}
+	return fmt.Sprintf("%s c%d/k%d ->k%d", s.Kind, s.Cnr, s.K, s.Target)
+}
+
+const maxObjs = 40
+
+func myOID(k int) oid.ID {
+	var id oid.ID
+	id[0] = byte(k*37 + 1)
+	id[13] = byte(200 - k)
+	id[31] = byte(k + 1)
+	return id
+}
+
+func build(s Spec) *object.Object {
+	o := uni.Build(uni.Spec{Kind: uni.Regular, Cnr: s.Cnr, ID: 0, Exp: -1, Parent: -1, ParentExp: -1, First: -1})
+	o.SetID(myOID(s.K))
+	var p []byte
+	if s.Kind == uni.Regular {
+		p = payload(s.K, s.Len)
+	}
+	o.SetPayload(p)
+	o.SetPayloadSize(uint64(len(p)))
+	o.SetPayloadChecksum(checksum.NewSHA256(sha256.Sum256(p)))
+	switch s.Kind {
+	case uni.Tombstone:
+		o.AssociateDeleted(myOID(s.Target))
+	case uni.Lock:
+		o.AssociateLocked(myOID(s.Target))
 	}
 	return o
 }
@@ -70,7 +104,7 @@ var sizes = []int{0, 1, 100, 1000, 4096, 20000, 65536}
 
 type world struct {
 	special bool
-	specs   []uni.Spec
+	specs   []Spec
 }
 
 func genWorld(t *rapid.T) world {
@@ -78,74 +112,49 @@ func genWorld(t *rapid.T) world {
 	w.special = rapid.IntRange(0, 3).Draw(t, "special") == 0
 	maxN := 12
 	if ev.Thorough() {
-		maxN = 36
+		maxN = maxObjs
 	}
 	n := rapid.IntRange(0, maxN).Draw(t, "nobj")
 	if rapid.IntRange(0, 9).Draw(t, "many") == 0 {
-		n = rapid.IntRange(maxN, 36).Draw(t, "nobj-many")
+		n = rapid.IntRange(maxN, maxObjs).Draw(t, "nobj-many")
 	}
-	slots := rapid.Permutation(allSlots()).Draw(t, "slots")
-	slots = slots[:n]
+	ks := rapid.Permutation(seq(maxObjs)).Draw(t, "ks")
+	absent := ks[n:] // IDs of objects that are never stored
+	ks = ks[:n]
 	var regular []int // indexes into w.specs of regular objects
-	used := map[[2]int]bool{}
-	for _, s := range slots {
-		used[s] = true
-	}
-	tsTarget := map[[2]int]bool{}
-	lockTarget := map[[2]int]bool{}
-	for i, s := range slots {
-		sp := uni.Spec{Kind: uni.Regular, Cnr: s[0], ID: s[1], Exp: -1, Parent: -1, ParentExp: -1, First: -1}
+	targeted := map[int]bool{}
+	for i, k := range ks {
+		sp := Spec{K: k, Cnr: rapid.IntRange(0, uni.NContainers-1).Draw(t, "cnr"), Kind: uni.Regular}
 		if w.special && i > 0 && rapid.IntRange(0, 2).Draw(t, "assoc") == 0 {
-			// tombstone or lock for an earlier regular object of the same container or for an absent ID
+			// tombstone or lock for an earlier regular object (same container) or for an absent ID;
+			// an object is the target of at most one association
 			kind := rapid.SampledFrom([]string{uni.Tombstone, uni.Lock}).Draw(t, "akind")
 			target := -1
 			for _, ri := range regular {
 				r := w.specs[ri]
-				k := [2]int{r.Cnr, r.ID}
-				if r.Cnr == s[0] && !tsTarget[k] && !lockTarget[k] && rapid.Bool().Draw(t, "pick") {
-					target = r.ID
+				if !targeted[r.K] && rapid.Bool().Draw(t, "pick") {
+					target, sp.Cnr = r.K, r.Cnr
 					break
 				}
 			}
-			if target < 0 {
-				for id := 0; id < uni.NObjects; id++ {
-					k := [2]int{s[0], id}
-					if !used[k] && !tsTarget[k] && !lockTarget[k] {
-						target = id
-						break
-					}
-				}
+			if target < 0 && len(absent) > 0 {
+				target, absent = absent[0], absent[1:]
 			}
 			if target >= 0 {
-				k := [2]int{s[0], target}
-				if kind == uni.Tombstone {
-					tsTarget[k] = true
-				} else {
-					lockTarget[k] = true
-				}
+				targeted[target] = true
 				sp.Kind, sp.Target = kind, target
 				w.specs = append(w.specs, sp)
 				continue
 			}
 		}
-		sp.PayloadLen = rapid.SampledFrom(sizes).Draw(t, "size")
+		sp.Len = rapid.SampledFrom(sizes).Draw(t, "size")
 		if rapid.IntRange(0, 3).Draw(t, "oddsize") == 0 {
-			sp.PayloadLen = rapid.IntRange(0, 70000).Draw(t, "len")
+			sp.Len = rapid.IntRange(0, 70000).Draw(t, "len")
 		}
 		regular = append(regular, len(w.specs))
 		w.specs = append(w.specs, sp)
 	}
 	return w
-}
-
-func allSlots() [][2]int {
-	var r [][2]int
-	for c := 0; c < uni.NContainers; c++ {
-		for i := 0; i < uni.NObjects; i++ {
-			r = append(r, [2]int{c, i})
-		}
-	}
-	return r
 }
 
 // ---------- dump format (independent reader/writer of the documented framing) ----------
@@ -227,14 +236,11 @@ func (r *scriptedReader) Read(p []byte) (int, error) {
 }
 
 // splitsBody reports whether the script can deliver a record body in more than
-// one Read (or the last body together with EOF): the class of the known finding.
+// one Read (or the last body together with EOF).
 func (s script) splitsBody() bool { return s.Kind != "len-split" || s.DataErr }
 
 func genScript(t *rapid.T, recs []record, total int) script {
 	kinds := []string{"one-byte", "chunks", "len-split", "body-split", "half", "full"}
-	if ev.IsOpen("C46", fpShortRead) {
-		return script{Kind: "len-split", Cuts: lenCuts(t, recs)}
-	}
 	s := script{Kind: rapid.SampledFrom(kinds).Draw(t, "reader")}
 	s.DataErr = rapid.IntRange(0, 2).Draw(t, "dataErr") == 0
 	switch s.Kind {
@@ -454,7 +460,7 @@ func TestC46DumpRestore(t *testing.T) {
 				case "bad-tag":
 					body[0] = 0x0f // field 1, wire type 7: not decodable
 				case "flip-payload":
-					if w.special || len(body) < 600 {
+					if exKind(r.data) != object.TypeRegular || len(body) < 600 {
 						continue
 					}
 					body[len(body)-1-rapid.IntRange(0, 100).Draw(t, "flip-at")] ^= 0xff
@@ -545,9 +551,6 @@ func TestC46DumpRestore(t *testing.T) {
 
 		// --- restore with generated short reads
 		sc := genScript(t, recs2, len(dump2))
-		if ev.IsOpen("C46", fpShortRead) {
-			rec.Excluded(1)
-		}
 		chunked := restore(filepath.Join(dir, "chunked"), dstWC, &scriptedReader{b: dump2, s: sc}, ignoreErrors, addrs)
 
 		lbls := []string{"reader-" + sc.Kind}
@@ -590,13 +593,18 @@ func TestC46DumpRestore(t *testing.T) {
 			}
 		}
 		if msg != "" {
-			if sc.splitsBody() && rec.Known(fpShortRead) {
-				return
-			}
 			t.Fatalf("%s\n  reader: %+v\n  dump: %d bytes, %d records (sizes %v)\n  full-read restore: %s\n  short-read restore: %s\n  world: %v",
 				msg, sc, len(dump2), len(recs2), recSizes(recs2), full.summary(), chunked.summary(), w.specs)
 		}
 	})
+}
+
+func exKind(b []byte) object.Type {
+	var o object.Object
+	if o.Unmarshal(b) != nil {
+		return 255
+	}
+	return o.Type()
 }
 
 func seq(n int) []int {
